@@ -313,6 +313,19 @@ def _key_from_replay(args, kwargs, replay_out):
     return m.group(1) if m else "C03:unclassified"
 
 
+RECWRAP = r'''
+_c04_scenario = scenario
+def scenario(*a):
+    ok = _c04_scenario(*a)
+    if not ok:
+        why = LAST_DETAIL.get("why") or ""
+        if why.startswith(("C04:recovery-stole", "C04:recovery-touched")):
+            return True          # live work disturbed: C04's subject, not a stranding
+        LAST_DETAIL["why"] = why.replace("C04:", "C03:recovery-race:")
+    return ok
+'''
+
+
 def run(ctx: Ctx) -> None:
     kmax = 140
     known = sorted(ctx.known_keys())
@@ -336,11 +349,22 @@ def run(ctx: Ctx) -> None:
     src += EXTRA.replace("KMAX", str(kmax))
     conds.append(Cond("twin", "refute", 60))
     ctx.ch_batch("c03", src, conds)
+    # no crash at all: a recovery run racing with a live owner must not strand what it had already taken (same scenario as C04's
+    # recovery part, SQLite stack, only the stranding outcomes count here)
+    from props import C04
+    rsrc = C04.REC + RECWRAP
+    rconds = []
+    for which in (0, 1):
+        for mover in (0, 1, 2):
+            rsrc += (C04.RECF.replace("__KIND__", "1").replace("__WHICH__", str(which)).replace("__MOVER__", str(mover)).replace("__NLO__", "3").replace("KMAX", "60"))
+            rconds.append(Cond(f"rec_1_{which}_{mover}", "confirm", 1500, keyfn=_key_from_replay))
+    ctx.ch_batch("c03recrace", rsrc, rconds)
     ctx.functions_encoded += ["BaseOrchestrator.get_invocations_to_run (+ blocking/additional)/reroute_invocations/set_invocation_status/set_invocation_retry/set_invocation_result/exception",
                               "SQLiteOrchestrator._atomic_status_transition/increment_invocation_retries/recovery scans (statement level)", "SQLiteBroker.retrieve_invocation/route_invocation/send_message (statement level)",
                               "DistributedInvocation.run", "BaseRunner._kill_and_reroute", "core_tasks.recover_pending_invocations/recover_running_invocations"]
     ctx.bounds = {"crash": f"one hard crash after step k in 0..{kmax} (k beyond the end = fault-free run) of each actor role: runner claiming (1-2 queued), worker executing (success / retry path), "
                            "reroute on concurrency control, the persistent-process worker main loop (two iterations over a queue with blocked entries), kill-and-reroute on stop (PENDING / RUNNING), pending recovery task, running recovery task (1-2 invocations)",
+                  "recovery race (no crash)": "3 stuck invocations, any subset fresh, an owner moves one of them at preemption point 0..60 of the recovery task twin (SQLite stack): nothing stays in a recovery status, REROUTED implies queued, every stale invocation is recovered",
                   "after the crash": "instant invariant, then clock + 10000 s, both real recovery tasks and a surviving worker loop until quiescent (sequential)"}
     ctx.stubs += ["crash = the actor's generator is abandoned (no finally blocks), its SQLite connections rolled back and closed", "SQLite stack only (an in-memory backend dies with its process)",
                   "counter clock; PENDING ages forced through the status timestamp", "DummyRunner as app.runner"]
